@@ -5,7 +5,7 @@ import z3
 from . import prelude as P
 from . import ty as T
 from .ty import INT, BOOL, STR, NONE, ANY
-from .symexec import SV, box, unbox, coerce, zsort, EngineError, simp_and, simp_not
+from .symexec import SV, box, unbox, coerce, zsort, EngineError, Unsupported, simp_and, simp_not
 
 
 class IterSrc:
@@ -226,7 +226,25 @@ def eval_comp(fv, node, st, spec, kind):
     j2 = z3.Int('k!c%d' % n)
 
     if kind == 'list':
-        cond_i, elt_i = at_index(i, conds_and(lambda b: fv.ev(node.elt, st, spec)))
+        try:
+            no = len(fv.obligations)
+            cond_i, elt_i = at_index(i, conds_and(lambda b: fv.ev(node.elt, st, spec)))
+        except (Unsupported, EngineError, z3.Z3Exception) as e:
+            if not (fv.in_slice() and not spec and not g.ifs and isinstance(node, ast.ListComp)):
+                raise
+            # slice mode: the element expression is outside the subset.  An unfiltered list comprehension has exactly one
+            # element per element of the iterable: a list of that length with arbitrary elements (after a heap havoc when
+            # evaluating the element expression may call unknown code).  Sites inside the expression are probed.
+            del fv.obligations[no:]
+            from .slicing import probe_sites, reads_only, havoc_state
+            from .ty import ANY
+            probe_sites(fv, ast.Expr(value=node), st, 'element of a list comprehension: %s' % str(e)[:100])
+            fv.abstracted.append(dict(line=node.lineno, stmt='elements of ' + ast.unparse(node)[:80], reason=str(e)[:160]))
+            if not reads_only(node.elt):
+                havoc_state(fv, st, set())
+            r = z3.Const('comp!%d' % n, P.V)
+            fv.add_fact(st, z3.And(P.tag(r) == P.TAG_SEQ, P.slen(r) == L))
+            return SV(r, T.Seq(ANY))
         ety = elt_i.ty
         r = z3.Const('comp!%d' % n, P.V)
         facts = [P.tag(r) == P.TAG_SEQ]
